@@ -51,6 +51,18 @@ def evaluate(name, thorough=False, seed='0'):
         rc, out = run_demo(d, os.path.join(sd, 'demo.py'), prop)
         res['demo_with_patch'] = rc
         res['demo_output_tail'] = out[-200:]
+        also = []
+        try:
+            also = json.load(open(os.path.join(sd, 'meta.json'))).get('also_run', [])
+        except Exception:
+            pass
+        for other in also:
+            ev = os.path.join(d, '_evidence_' + other)
+            os.makedirs(os.path.join(ev, 'replay'), exist_ok=True)
+            env = dict(os.environ, VERIF_REPO=d, VERIF_EVIDENCE_DIR=ev, VERIF_SEED=seed)
+            p2 = subprocess.run([os.path.join(HERE, 'bin', 'check'), other, '--tier', 'quick'], env=env, capture_output=True, text=True)
+            keys = [l.strip()[:220] for l in p2.stdout.splitlines() if l.strip().startswith('key=')]
+            res['also_' + other] = {'exit': p2.returncode, 'keys': keys[:3], 'verdict': {0: 'MISSED', 1: 'CAUGHT', 2: 'INCONCLUSIVE'}.get(p2.returncode)}
         for tier in (['quick'] + (['thorough'] if thorough else [])):
             ev = os.path.join(d, '_evidence')
             os.makedirs(os.path.join(ev, 'replay'), exist_ok=True)
@@ -83,7 +95,8 @@ def main():
         allres[n] = r
         last = r.get('thorough') or r.get('quick') or {}
         print(f"{n:12s} demo clean={r.get('demo_on_clean')} patched={r.get('demo_with_patch')} baseline={'ok' if r.get('baseline_passes') else 'BROKEN'} "
-              f"check={last.get('verdict')} ({'thorough' if r.get('thorough') else 'quick'}, {last.get('wall_s')}s) {'; '.join(last.get('keys', []))[:160]}", flush=True)
+              + ''.join(f" [{k[5:]}: {v['verdict']}]" for k, v in r.items() if k.startswith('also_')) +
+              f" check={last.get('verdict')} ({'thorough' if r.get('thorough') else 'quick'}, {last.get('wall_s')}s) {'; '.join(last.get('keys', []))[:160]}", flush=True)
         json.dump(allres, open(rpath, 'w'), indent=1, sort_keys=True)
     return 0
 
